@@ -16,6 +16,7 @@ package main
 //                   starting function, and the starting function assigns that same variable again
 //                   afterwards (a later branch or iteration) with no synchronisation in between: the
 //                   goroutine sees whichever value is there when it gets to run.
+//   STATE/format    text taken from the arguments is used as the FORMAT of a fmt call.
 //   STATE/pool      memory of an object taken from a sync.Pool is still referenced by the function's
 //                   result although the object is handed back to the pool.
 //
@@ -24,6 +25,7 @@ package main
 
 import (
 	"fmt"
+	"os"
 	"go/types"
 	"sort"
 	"strings"
@@ -345,6 +347,9 @@ func stateRules(c *Ctx) {
 			nMemo++
 			key := "memo-key:" + short1 + "->" + what
 			kt, vt := tb.T(unwrapIface(k)), tb.T(unwrapIface(v))
+			if os.Getenv("DEBUG_STATE") != "" {
+				fmt.Println("DEBUG memo", kt.String(), "=>", vt.String())
+			}
 			kl, _ := argLeaves(kt)
 			vl, vOpaque := argLeaves(vt)
 			// a container built in this function: it depends on everything stored into it
@@ -368,7 +373,43 @@ func stateRules(c *Ctx) {
 				}
 			}
 			sort.Strings(missing)
+			// a value read from the file system is not a function of the key at all: the file can change
+			readsFile := ""
+			vt.walk(func(x *Term) {
+				if x.Op == "call" {
+					switch x.Name {
+					case "os.ReadFile", "io/ioutil.ReadFile", "os.Open", "os.OpenFile":
+						readsFile = x.Name
+					}
+				}
+			})
+			// ... also when the value went through a decoder that hides its input: the same function opens
+			// or reads the file named by (a part of) the key
+			if readsFile == "" && len(kl) > 0 {
+				eachInstr(g, func(j ssa.Instruction) {
+					cj, ok := j.(ssa.CallInstruction)
+					if !ok {
+						return
+					}
+					switch n := calleeName(cj); n {
+					case "os.ReadFile", "io/ioutil.ReadFile", "os.Open", "os.OpenFile":
+						if len(cj.Common().Args) == 0 {
+							return
+						}
+						pl, _ := argLeaves(tb.T(cj.Common().Args[0]))
+						for _, a := range pl {
+							for _, b := range kl {
+								if a == b {
+									readsFile = n
+								}
+							}
+						}
+					}
+				})
+			}
 			switch {
+			case readsFile != "":
+				c.bad("STATE", key, i.Pos(), fmt.Sprintf("%s remembers in package-level %s what it read through %s: the file is not an argument, so a later call for the same key returns the remembered content although the file has changed (and every caller shares the remembered value)", short1, what, readsFile))
 			case len(missing) > 0 && len(kl) > 0:
 				c.bad("STATE", key, i.Pos(), fmt.Sprintf("%s remembers in package-level %s, under a key computed from %s, a value computed from %s: a later call whose arguments agree in the key but differ there is answered with the earlier call's value", short1, what, strings.Join(pretty(g, kl), ", "), strings.Join(pretty(g, missing), ", ")))
 			case len(missing) > 0:
@@ -377,6 +418,31 @@ func stateRules(c *Ctx) {
 				c.undecided("STATE", key, i.Pos(), fmt.Sprintf("%s remembers a value in package-level %s; not everything the value is computed from is visible", short1, what))
 			default:
 				c.ok("STATE", key, i.Pos(), fmt.Sprintf("everything the remembered value is computed from (%s) is part of the key (%s)", strings.Join(pretty(g, vl), ", "), strings.Join(pretty(g, kl), ", ")))
+			}
+		})
+		// ---- data used as a format string
+		eachInstr(g, func(i ssa.Instruction) {
+			ci, ok := i.(ssa.CallInstruction)
+			if !ok {
+				return
+			}
+			pos := -1
+			switch calleeName(ci) {
+			case "fmt.Sprintf", "fmt.Printf", "fmt.Errorf":
+				pos = 0
+			case "fmt.Fprintf", "fmt.Sscanf", "fmt.Fscanf":
+				pos = 1
+			}
+			as := ci.Common().Args
+			if pos < 0 || pos >= len(as) {
+				return
+			}
+			if _, isConst := as[pos].(*ssa.Const); isConst {
+				return
+			}
+			ft := tb.T(as[pos])
+			if leaves, _ := argLeaves(ft); len(leaves) > 0 {
+				c.bad("STATE", "format:"+short1, i.Pos(), fmt.Sprintf("%s builds the format string of %s from %s: a '%%' in that text is read as a formatting verb, so the text comes out garbled and the operands shift", short1, calleeName(ci), strings.Join(pretty(g, leaves), ", ")))
 			}
 		})
 		// ---- pool
@@ -680,6 +746,16 @@ func goCapture(c *Ctx, g *ssa.Function, short1 string) int {
 						if x.Addr != ssa.Value(fv) {
 							reads = true
 						}
+					}
+				}
+			}
+			// several goroutines assigning one variable: the literal stores into the captured variable itself
+			// (x = append(x, ...), n += ...), the go statement sits in a loop, and the literal takes no lock
+			if fv.Referrers() != nil && inLoop(gi.Block()) && guardedBy(fn) == "" {
+				for _, r := range *fv.Referrers() {
+					if st, isSt := r.(*ssa.Store); isSt && st.Addr == ssa.Value(fv) {
+						c.bad("STATE", "go-shared-write:"+short1+"."+al.Comment, st.Pos(), fmt.Sprintf("%s starts, in a loop, goroutines on a function literal that assigns the variable %s of the starting function with no lock: two of them can read the same old value and one assignment is lost (an element appended by one goroutine disappears)", short1, al.Comment))
+						break
 					}
 				}
 			}
